@@ -137,6 +137,11 @@ KINDS = {
     # the wall clock steps backwards while the request is served (NTP adjustment): still one request
     'backclock': ('GET', '/backclock', [('/backclock', ['ret', 200])]),
     'unknown':  ('GET', '/nope', [(NULL, ['ret', 404])]),
+    # the server (or an outer application) calls the application while it is itself handling an exception - a reroute,
+    # a fallback handler, an error page that embeds a sub-request: the outcome of THIS request is what is counted
+    'ok_in_except':   ('GET', '/ok', [('/ok', ['ret', 200])], '', 'KeyError'),
+    'item_in_except': ('GET', '/item/7', [('/item/<n:int>', ['ret', 200])], '', 'LookupError'),
+    'boom_in_except': ('GET', '/boom', [('/boom', ['exc', 'ValueError'])], '', 'KeyError'),
     # query strings as clients send them: raw bytes that are not UTF-8 (latin-1 form fields, binary tokens)
     'ok_rawq':      ('GET', '/ok', [('/ok', ['ret', 200])], 'q=caf\xe9'),
     'redir_rawq':   ('GET', '/redir', [('/redir', ['ret', 302])], 'next=\xff\xfe'),
@@ -278,7 +283,13 @@ def impl_stats(case):
             continue
         before = snapshot(mw)
         q = 'format=json' if k in ('read', 'reset') else (KINDS[k][3] if len(KINDS[k]) > 3 else '')
-        r = wsgi.get(app, path, method=method, query=q)
+        if len(KINDS[k]) > 4:
+            try:
+                raise {'KeyError': KeyError, 'LookupError': LookupError}[KINDS[k][4]]('the caller is busy with this one')
+            except LookupError:
+                r = wsgi.get(app, path, method=method, query=q)
+        else:
+            r = wsgi.get(app, path, method=method, query=q)
         rec = {'status': r.code, 'exc': type(r.exc).__name__ if r.exc else None, 'after': snapshot(mw)}
         if k in ('read', 'reset'):
             try:
